@@ -20,6 +20,18 @@ const JUNK_UNITS: [&str; 30] = [
     "\u{212A}b", "wee\u{212A}", "wee\u{212A}s", "\u{17F}econds", "m\u{130}nutes", "t\u{130}b", "\u{212A}ib", "day\u{17F}","x", "k", "kbb", "kbs", "bytes", "byte", "kb.", "k b", "m", "mbb", "pb", "secondss", "sec", "s", "min",
     "minuts", "hourss", "dayz", "mon", "yr", "second s", "é"];
 
+/// A unit that is not one: from the catalogue, or long text whose byte offsets fall inside characters.
+fn junk_unit(rng: &mut Rng) -> String {
+    if rng.chance(3, 4) {
+        return mixed_case(*rng.pick(&JUNK_UNITS[..]), rng);
+    }
+    let c = *rng.pick(&['é', 'м', 'メ', '・', '𝄞']); // (not U+3000: that is white space, which may separate number and unit)
+    let mut s = "x".repeat(rng.usize_below(4));
+    s.extend(std::iter::repeat(c).take(3 + rng.usize_below(40)));
+    s.push_str(*rng.pick(&["", "tb", "kb", "seconds", "s", " b"]));
+    s
+}
+
 fn mixed_case(s: &str, rng: &mut Rng) -> String {
     // ASCII case changes only: Unicode case mapping would turn look-alikes (U+017F, U+212A) into real units
     match rng.below(3) {
@@ -76,7 +88,7 @@ fn size_case(rep: &mut Report, rng: &mut Rng, idx: u64) {
         0 => (n.to_string(), true, if n <= u64::MAX as u128 { Want::Val(n) } else { Want::Err }),
         1 => (digits.clone(), false, if n <= u64::MAX as u128 { Want::Val(n) } else { Want::Err }),
         2 => (format!("-{}", rng.below(100) + 1), rng.chance(1, 2), Want::Err),
-        3 => (format!("{}{}{}", digits, ws(rng), mixed_case(*rng.pick(&JUNK_UNITS[..]), rng)), false, Want::Err),
+        3 => (format!("{}{}{}", digits, ws(rng), junk_unit(rng)), false, Want::Err),
         4 => (format!("{}.{}{}{}", rng.below(100), rng.below(10), ws(rng), rng.pick(&SIZE_UNITS[..]).0), false, Want::Err),
         _ => {
             let (u, k) = *rng.pick(&SIZE_UNITS[..]);
@@ -146,7 +158,7 @@ fn interval_case(rep: &mut Report, rng: &mut Rng, idx: u64) {
         0 => (n.to_string(), true, if fits { Some((0, n)) } else { None }),
         1 => (digits.clone(), false, if fits { Some((0, n)) } else { None }),
         2 => (format!("-{}", rng.below(100) + 1), rng.chance(1, 2), None),
-        3 => (format!("{}{}{}", digits, ws(rng), mixed_case(*rng.pick(&JUNK_UNITS[..]), rng)), false, None),
+        3 => (format!("{}{}{}", digits, ws(rng), junk_unit(rng)), false, None),
         4 => (format!("{}.{}{}{}", rng.below(100), rng.below(10), ws(rng), rng.pick(&TIME_UNITS[..]).0), false, None),
         _ => {
             let (u, k) = *rng.pick(&TIME_UNITS[..]);
